@@ -1,7 +1,7 @@
 """C14 - subset and union retain exactly the referenced data and invert each other (structural clauses)."""
 from __future__ import annotations
 
-from . import lib_schema, lib_module, lib_py, lib_guards, lib_gate, lib_err
+from . import scopes, lib_schema, lib_module, lib_py, lib_guards, lib_gate, lib_err
 
 LEVEL = "other"
 EXPLANATION = ("Entry integrity gates on both operands, exact node-list / node-mapping guards, option plumbing with polarity and "
@@ -14,19 +14,21 @@ FUNCS = {"tsk_table_collection_subset", "tsk_table_collection_union", "tsk_table
 def run(ctx):
     P = ctx.program()
     py = ctx.python()
+    ps, ms = scopes.py_scope("C14"), scopes.module_scope("C14")
+    su = lambda f: f in FUNCS
     lib_gate.gate(ctx, P, only={"tsk_table_collection_subset", "tsk_table_collection_union", "tsk_check_subset_equality"})
     seen = lib_guards.analyse(ctx, P, funcs=FUNCS)
     lib_guards.presence(ctx, seen, funcs=FUNCS)
     lib_module.options_plumbing(ctx, P, funcs={"TableCollection_subset", "TableCollection_union", "TableCollection_canonicalise"})
-    lib_module.array_flags(ctx, P)
-    lib_module.parsed_used(ctx, P)
-    lib_schema.argname(ctx, P, tus=("tables",))
-    lib_schema.row_forwarding(ctx, P, tus=("tables",))
-    lib_schema.column_domain(ctx, P)
+    lib_module.array_flags(ctx, P, only=ms)
+    lib_module.parsed_used(ctx, P, only=ms)
+    lib_schema.argname(ctx, P, tus=("tables",), funcs=su)
+    lib_schema.row_forwarding(ctx, P, tus=("tables",), funcs=su)
+    lib_schema.column_domain(ctx, P, funcs=su)
     lib_err.discipline(ctx, P, ["tables"], funcs=FUNCS)
-    lib_py.kw_forward(ctx, py, mods=("trees", "tables"))
-    lib_py.unused_params(ctx, py, mods=("trees", "tables"))
-    lib_py.ll_positional(ctx, py, P)
+    lib_py.kw_forward(ctx, py, mods=("trees", "tables"), only=ps)
+    lib_py.unused_params(ctx, py, mods=("trees", "tables"), only=ps)
+    lib_py.ll_positional(ctx, py, P, only=ps)
     lib_py.gate_before_return(ctx, py, ["subset", "union"])
     # union post-processing and flag consumption
     from sa.schema import Facts
